@@ -154,6 +154,8 @@ structure DS where
   lazy : Bool
   st : Sess Float String Float
   ms : Option (MSess Float) := none      -- the memo-level session (none: an evaluation did not return)
+  vq : VState String Float := { log := [], seen := 0, kept := [] }     -- wave 9: view machine of the by-equation view
+  vf : VState String Float := { log := [], seen := 0, kept := [] }     -- … and of the flat view (the code keeps one cache per shape)
 
 def mkSpec (n stride : Nat) (raw : List String) : Spec String :=
   { n := n, stride := stride, label := fun k => s!"i{k}", rawLabel := fun k => raw.getD k "x" }
@@ -178,19 +180,24 @@ def parseCSet (s : String) : Option (CSet Float) :=
     | [a, b] => do some ((← a.toNat?), (← parseHex b))
     | _ => none)
 
+def feedRows (c : Cfg) (v : VState String Float) (rows : List (Row String Float)) : VState String Float :=
+  rows.foldl (fun v r => (vstep c v (.step r)).1) v
+
 def doCall (d : DS) (cl : Call Float) : DS × String :=
   let r := call d.c (linSim d.m) d.spec d.eqs d.lazy d.st cl
   let singles := expand d.c d.spec [cl] d.st.k
   let ms := singles.foldl (fun acc s => acc.bind (fun x => mAdvance d x s)) d.ms
-  ({ d with st := r.1, ms := ms }, showReplies r.2)
+  let newRows := r.1.log.drop d.st.log.length
+  ({ d with st := r.1, ms := ms, vq := feedRows d.c d.vq newRows, vf := feedRows d.c d.vf newRows }, showReplies r.2)
 
 def stepLine (d : DS) (line : String) : DS × String :=
   match line.trimAscii.toString.splitOn " " with
-  | ["cfg", a, b, f] => ({ d with c := ⟨a == "1", b == "1", f == "1", true, true, true, true⟩ }, "ok")
-  | ["cfg", a, b, f, g] => ({ d with c := ⟨a == "1", b == "1", f == "1", g == "1", true, true, true⟩ }, "ok")
-  | ["cfg", a, b, f, g, r] => ({ d with c := ⟨a == "1", b == "1", f == "1", g == "1", r == "1", true, true⟩ }, "ok")
-  | ["cfg", a, b, f, g, r, m] => ({ d with c := ⟨a == "1", b == "1", f == "1", g == "1", r == "1", m == "1", true⟩ }, "ok")
-  | ["cfg", a, b, f, g, r, m, q] => ({ d with c := ⟨a == "1", b == "1", f == "1", g == "1", r == "1", m == "1", q == "1"⟩ }, "ok")
+  | ["cfg", a, b, f] => ({ d with c := ⟨a == "1", b == "1", f == "1", true, true, true, true, true⟩ }, "ok")
+  | ["cfg", a, b, f, g] => ({ d with c := ⟨a == "1", b == "1", f == "1", g == "1", true, true, true, true⟩ }, "ok")
+  | ["cfg", a, b, f, g, r] => ({ d with c := ⟨a == "1", b == "1", f == "1", g == "1", r == "1", true, true, true⟩ }, "ok")
+  | ["cfg", a, b, f, g, r, m] => ({ d with c := ⟨a == "1", b == "1", f == "1", g == "1", r == "1", m == "1", true, true⟩ }, "ok")
+  | ["cfg", a, b, f, g, r, m, q] => ({ d with c := ⟨a == "1", b == "1", f == "1", g == "1", r == "1", m == "1", q == "1", true⟩ }, "ok")
+  | ["cfg", a, b, f, g, r, m, q, w] => ({ d with c := ⟨a == "1", b == "1", f == "1", g == "1", r == "1", m == "1", q == "1", w == "1"⟩ }, "ok")
   | ["rbegin", b, s0, c0, start, stop, dt, eqs] =>
       match parseHex b, parseHex s0, parseHex c0, parseHex start, parseHex stop, parseHex dt, parseNats eqs with
       | some b, some s0, some c0, some start, some stop, some dt, some eqs =>
@@ -237,7 +244,8 @@ def stepLine (d : DS) (line : String) : DS × String :=
       match parseHex c0, parseNats eqs with
       | some c0, some eqs =>
           if eqs.all (· < (if d.m.fam == 4 then 5 else 4)) then
-            ({ d with eqs := eqs, lazy := lz == "1", st := begin c0, ms := some (mbegin (bodies d.m c0)) }, "ok")
+            ({ d with eqs := eqs, lazy := lz == "1", st := begin c0, ms := some (mbegin (bodies d.m c0)),
+                      vq := (vstep d.c d.vq .begin).1, vf := (vstep d.c d.vf .begin).1 }, "ok")
           else (d, "bad-op")
       | _, _ => (d, "bad-op")
   | ["step", s] => match parseSet s with
@@ -257,10 +265,15 @@ def stepLine (d : DS) (line : String) : DS × String :=
       | some ms =>
           (d, if ms.log.isEmpty then "-" else
             "|".intercalate (ms.log.zipIdx.map fun (row, j) => showRow (lbl d.c d.spec j, row)))
-  | ["byeq"] => (d, ";".intercalate ((resultsByEq d.eqs d.st).map fun p =>
-      s!"{p.1}=" ++ ",".intercalate (p.2.map fun x => x.1 ++ ":" ++ showOptV x.2)))
-  | ["flat"] => (d, ";".intercalate ((resultsFlat d.eqs d.st).map fun p =>
-      s!"{p.1}=" ++ ",".intercalate (p.2.map showOptV)))
+  | ["byeq"] =>
+      let rd := vstep d.c d.vq .read
+      ({ d with vq := rd.1 }, ";".intercalate ((resultsByEq d.eqs { d.st with log := rd.2.getD [] }).map fun p =>
+        s!"{p.1}=" ++ ",".intercalate (p.2.map fun x => x.1 ++ ":" ++ showOptV x.2)))
+  | ["flat"] =>
+      let rd := vstep d.c d.vf .read
+      ({ d with vf := rd.1 }, ";".intercalate ((resultsFlat d.eqs { d.st with log := rd.2.getD [] }).map fun p =>
+        s!"{p.1}=" ++ ",".intercalate (p.2.map showOptV)))
+  | ["endsession"] => ({ d with vq := (vstep d.c d.vq .endS).1, vf := (vstep d.c d.vf .endS).1 }, "ok")
   | ["batchdf", c0, eqs] => match parseHex c0, parseNats eqs with
       | some c0, some eqs => (d, "|".intercalate ((batchDf (linSim d.m) d.spec c0 eqs).map showRow))
       | _, _ => (d, "bad-op")
@@ -278,5 +291,5 @@ partial def loop (h : IO.FS.Stream) (d : DS) : IO Unit := do
   loop h d'
 
 def main : IO Unit := do
-  loop (← IO.getStdin) { c := ⟨true, true, true, true, true, true, true⟩, m := ⟨1.0, 1.0, 0.0, 1.0, 0, 0.0⟩, spec := mkSpec 0 1 [], eqs := [],
+  loop (← IO.getStdin) { c := ⟨true, true, true, true, true, true, true, true⟩, m := ⟨1.0, 1.0, 0.0, 1.0, 0, 0.0⟩, spec := mkSpec 0 1 [], eqs := [],
                          lazy := false, st := begin 0.0 }
